@@ -171,20 +171,30 @@ func runInmemConc(sc InmemScenario, prefix []int) *inmemConc {
 	}
 	var clock int64
 	hist := make([][]HistOp, len(sc.Threads))
+	pending := make([][]HRes, len(sc.Threads))
 	for ti, ops := range sc.Threads {
 		ti, ops := ti, ops
 		s.Go(ti, func() {
 			for oi, op := range ops {
 				clock++
 				call := clock
-				r := CallHandler(h, op)
+				// the returned bytes are looked at only after every thread has finished: a reader
+				// may hold a value while other connections keep working on the key
+				r := CallHandlerDeferred(h, op)
 				clock++
-				rep := wire.Reply{Class: r.Class, Hits: r.Hits, Misses: r.Misses}
-				hist[ti] = append(hist[ti], HistOp{Thread: ti, Idx: oi, Op: op, Reply: rep, Call: call, Ret: clock})
+				pending[ti] = append(pending[ti], r)
+				hist[ti] = append(hist[ti], HistOp{Thread: ti, Idx: oi, Op: op, Call: call, Ret: clock})
 			}
 		})
 	}
 	s.Run()
+	for ti := range pending {
+		for oi := range pending[ti] {
+			r := pending[ti][oi]
+			r.Materialize()
+			hist[ti][oi].Reply = wire.Reply{Class: r.Class, Hits: r.Hits, Misses: r.Misses}
+		}
+	}
 	add := func(clause, what string) {
 		var kinds []string
 		for _, t := range sc.Threads {
@@ -278,7 +288,8 @@ func runC17(c *rt.Ctx) {
 	inits := [][]wire.Op{
 		nil,
 		{{Kind: "set", Key: "a", Val: "i", Flags: 1}},
-		{{Kind: "set", Key: "a", Val: "e", Flags: 1, TTL: 5}, {Kind: "advance", Sec: 10}}, // physically present, expired
+		{{Kind: "set", Key: "a", Val: "e", Flags: 1, TTL: 5}, {Kind: "advance", Sec: 10}},             // physically present, expired
+		{{Kind: "set", Key: "a", Val: "0123456789", Flags: 1}, {Kind: "append", Key: "a", Val: "ab"}}, // grown by an append (spare capacity)
 	}
 	mk := func(tag string) []wire.Op {
 		return []wire.Op{
@@ -286,6 +297,7 @@ func runC17(c *rt.Ctx) {
 			{Kind: "set", Key: "a", Val: "S" + tag, Flags: 2}, {Kind: "add", Key: "a", Val: "A" + tag, Flags: 3},
 			{Kind: "append", Key: "a", Val: "+" + tag}, {Kind: "delete", Key: "a"}, {Kind: "touch", Key: "a", TTL: 0}, {Kind: "gat", Key: "a", TTL: 0},
 			{Kind: "replace", Key: "a", Val: "R" + tag, Flags: 4},
+			{Kind: "prepend", Key: "a", Val: tag + "+"},
 		}
 	}
 	item := 0
@@ -358,6 +370,8 @@ func runC17Race(c *rt.Ctx) {
 				CallHandler(h, wire.Op{Kind: "set", Key: fmt.Sprintf("k%d", i%5), Val: "v", TTL: 0})
 				CallHandler(h, wire.Op{Kind: "delete", Key: fmt.Sprintf("k%d", (i+1)%5)})
 				CallHandler(h, wire.Op{Kind: "append", Key: fmt.Sprintf("k%d", (i+2)%5), Val: "x"})
+				CallHandler(h, wire.Op{Kind: "prepend", Key: fmt.Sprintf("k%d", (i+2)%5), Val: "y"})
+				CallHandler(h, wire.Op{Kind: "get", Key: fmt.Sprintf("k%d", (i+2)%5)})
 			}
 		}(g)
 	}
